@@ -73,7 +73,7 @@ Definition c03_complete_ok (ff : bool) (items : list item) (h : hist) : bool :=
   let errs := flat_map (fun e => match e with EvParseErr i => [i] | _ => [] end) (events_of h) in
   Nat.eqb (n_feats h) (length (feature_items consumed))
   && list_eqb N.eqb errs (flat_map (fun i => match i with IError x => [x] | _ => [] end) consumed)
-  && (* exactly one ParsingFinished, after every parser error *)
+  && (* exactly one ParsingFinished (that no parser error follows it is judged by FramingP.framing_prefix in SchedCheck.framing_mon) *)
      match filter (fun e => match e with EvParsingFinished _ _ _ _ _ => true | _ => false end) (events_of h) with
      | [_] => true | _ => false end.
 
